@@ -45,7 +45,7 @@ Fresh(id, fam, viol, cov) ==
    shown |-> "", shownMsvc |-> FALSE, lastFin |-> 0, lastReads |-> <<>>, lastHasDep |-> FALSE,
    prevOK |-> FALSE, prevTargets |-> <<>>, prevFile |-> "", changed |-> TRUE, repeat |-> FALSE,
    inInv |-> FALSE, errSeen |-> FALSE, lastOk |-> FALSE, p1names |-> {},
-   xpl |-> NoXpl, locs |-> <<>>, lastSum |-> <<"none", 0>>,
+   xpl |-> NoXpl, locs |-> <<>>, lastSum |-> <<"none", 0>>, crashed |-> FALSE,
    viol |-> viol, cov |-> cov]
 
 Init == l = 1 /\ w = Fresh("", "", {}, Cov0)
@@ -85,8 +85,10 @@ CanonOf(g, n) == IF \E p \in SpellTable(g) : p[1] = n
                    THEN (CHOOSE p \in SpellTable(g) : p[1] = n)[2] ELSE n
 DumpNames(b) == Range(b.outs) \cup Range(b.ins) \cup Range(b.oo) \cup Range(b.val) \cup Range(b.disc)
 
+\* (the pool of a step is compared separately: a step loaded into the wrong pool does not stop
+\* the mirror, what then runs concurrently is judged against the declared pool, C04)
 StepFields == {"outs", "nxo", "ins", "nxi", "oo", "val", "phony", "cmd", "desc",
-               "depfile", "msvc", "rsp", "rspc", "hasrsp", "pool"}
+               "depfile", "msvc", "rsp", "rspc", "hasrsp"}
 SameStep(a, b) == \A f \in StepFields : a[f] = b[f]
 
 NamesOf(g, S) == {g.steps[s].outs[1] : s \in S}
@@ -152,7 +154,8 @@ DoWork(ev) ==
               /\ \A i \in DOMAIN g2.steps : SameStep(ev.builds[i], g2.steps[i])
       \* (a pool table that differs from the declared one does not stop the mirror: what then
       \* runs concurrently is judged against the declared depths, C04)
-      samePools == Range(ev.pools) = Range(g2.pools)
+      samePools == /\ Range(ev.pools) = Range(g2.pools)
+                   /\ (same => \A i \in DOMAIN g2.steps : ev.builds[i].pool = g2.steps[i].pool)
       ld == Loaded(g2, w.log)
       ldok == \A s \in StepIds(g2) :
                  ev.builds[s].tok = ld[s].tok /\ ev.builds[s].disc = ld[s].deps
@@ -351,12 +354,13 @@ DoDbw(ev) ==
                    \cup Lbl({"CONF"}, "explain", (w.inv.adopt /\ w.inv.explain) => XplReasonOK(g, s, w.xpl)))
       cov == BumpIf(BumpIf(BumpIf(Bump(w.cov, "dbw"), "adoptRec", isBuild /\ w.inv.adopt),
                 "discRec", isBuild /\ ev.deps # <<>>), "crash", "kept" \in DOMAIN ev)
-  IN IF w.bad \/ ~isBuild THEN [w EXCEPT !.cov = cov]
-     ELSE IF s = 0 THEN [w EXCEPT !.viol = @ \cup v, !.cov = cov]
+  IN IF w.bad \/ ~isBuild THEN [w EXCEPT !.cov = cov, !.crashed = @ \/ ("kept" \in DOMAIN ev)]
+     ELSE IF s = 0 THEN [w EXCEPT !.viol = @ \cup v, !.cov = cov, !.crashed = @ \/ ("kept" \in DOMAIN ev)]
      ELSE [w EXCEPT !.log = IF torn THEN @ ELSE Append(@, rec),
                     !.cur = IF torn THEN @ ELSE (s :> rec) @@ @,
                     !.pend = IF w.pend.s = s THEN NoPend ELSE @,
                     !.xpl = IF w.inv.adopt /\ w.inv.explain THEN [@ EXCEPT !.kind = "used"] ELSE @,
+                    !.crashed = @ \/ ("kept" \in DOMAIN ev),
                     !.viol = @ \cup v, !.cov = cov]
 
 DoPu(ev) ==
@@ -410,11 +414,15 @@ DoEnd(ev) ==
       kgScope == IF w.workNo = 1 /\ HasProducer(g, MFile) /\ w.finFail \cap W1(g) # {}
                    THEN NonPhony(g, W1(g)) ELSE np
       allExist == \A s \in np : MissingOf(g, w.file, s, CurRec(s).deps) = {}
-      v == Lbl({"C06", "C12"}, "panic", ev.panic = "")
+      \* (after a crash left a torn log, a panic is also "a log that a later invocation cannot load")
+      v == Lbl(IF w.crashed THEN {"C06", "C12", "C07"} ELSE {"C06", "C12"}, "panic", ev.panic = "")
            \cup Lbl({"C07"}, "log-unreadable", ev.errk # "loaddb")
            \cup Lbl({"C05"}, "exit-zero-after-failure", (w.finFail # {} \/ w.intr # {} \/ ev.err # "") => ~ok)
            \cup (IF ~loaded THEN {} ELSE
-                Lbl(IF w.workNo = 2 THEN {"C02", "C05", "C17"} ELSE {"C02", "C05"}, "dirty-left", (ok /\ ~adoptMissing) => \A s \in np : uptodate(s))
+                \* (C06's first clause as well: nothing failed, yet a wanted step was left behind)
+                Lbl((IF w.workNo = 2 THEN {"C02", "C05", "C17"} ELSE {"C02", "C05"})
+                       \cup (IF w.finFail = {} /\ w.intr = {} THEN {"C06"} ELSE {}),
+                    "dirty-left", (ok /\ ~adoptMissing) => \A s \in np : uptodate(s))
                 \cup Lbl({"C19"}, "summary", ok => /\ (ev.summary = "nowork") = (w.nOK = 0)
                                         /\ (ev.summary = "ran" => ev.n = w.nOK)
                                         /\ ev.summary # "none")
